@@ -602,6 +602,7 @@ func (w *World) AddValidatorKey(v *Validator) { w.Vals = append(w.Vals, v) }
 
 type BlockOpts struct {
 	MaxTxs int
+	Time   *time.Time // block time chosen by the caller (daemon engines tie it to the fake clock)
 }
 
 // NextBlock builds, executes and commits one block on all live replicas.
@@ -615,6 +616,9 @@ func (w *World) NextBlock(opts BlockOpts) *BlockRecord {
 		prev.Commit = commit
 	}
 	t := w.chooseTime()
+	if opts.Time != nil {
+		t = *opts.Time
+	}
 	if !t.After(w.Time) {
 		t = w.Time.Add(time.Millisecond)
 	}
